@@ -430,7 +430,7 @@ func (x *Unit) onceDo(st *State, pc *preparedCall) []Val {
 func (x *Unit) atomicCall(st *State, pc *preparedCall, name string) ([]Val, bool) {
 	isUber := strings.HasPrefix(name, "(*go.uber.org/atomic.")
 	isStd := strings.HasPrefix(name, "(*sync/atomic.")
-	isMon := strings.HasPrefix(name, "(*github.com/yandex/pandora/lib/monitoring.Counter).")
+	isMon := false
 	if !isUber && !isStd && !isMon {
 		return nil, false
 	}
